@@ -67,6 +67,10 @@ func (i *interpreter) blockUntil(cond func() bool, what string) {
 func mutexLock(fr *frame, args []value) value {
 	i := fr.i
 	st := i.fieldCell(args[0].(*value), recvType(fr), "state")
+	if modelFrame(fr.caller) && (*st).(int32) == 0 {
+		*st = int32(1) // bookkeeping lock of a library model: no scheduling point, no happens-before edge
+		return nil
+	}
 	i.syncPoint("mutex lock")
 	i.blockUntil(func() bool { return (*st).(int32) == 0 }, "mutex lock")
 	*st = int32(1)
@@ -79,6 +83,10 @@ func mutexUnlock(fr *frame, args []value) value {
 	st := i.fieldCell(args[0].(*value), recvType(fr), "state")
 	if (*st).(int32) == 0 {
 		panic(i.runtimeError("fatal error: sync: unlock of unlocked mutex"))
+	}
+	if modelFrame(fr.caller) {
+		*st = int32(0)
+		return nil
 	}
 	*st = int32(0)
 	i.hbRelease(i.curTask, st)
